@@ -718,3 +718,136 @@ class FloatReplayer:
         if res['violates']:
             res['violated_clauses'] = ['compiled %s gives bits %s, Go gives bits %s' % (self.case.name, got, want_s)]
         return res
+
+
+# ---------------------------------------------------------------------------------------------------------------------
+# C14: strings.  Conversions from code points use $encodeRune (through its contract); range-over-string loops are checked
+# one iteration at a time: from any position _i < len(s) the emitted body must decode at _i, bind the loop variables to
+# (_i, rune) and advance by exactly the width of that rune.
+def c14_cases():
+    C = []
+    def enc_ok(v):
+        def f(ex, st0, st, P, r):
+            env = gospec_env(ex, st, {'result': r, 'v': v(P)})
+            want = z3.If(z3.And(v(P) >= 0, v(P) <= 1114111, z3.Not(z3.And(v(P) >= 55296, v(P) <= 57343))), v(P), 65533)
+            return [('decodes to the code point', ex.sev_bool(env, speclang.parse_expr('decR(result, 0)')) if False else (ex.sev(env, speclang.parse_expr('decR(result, 0)')) == want)),
+                    ('one rune', ex.sev(env, speclang.parse_expr('decW(result, 0)')) == r.len),
+                    ('shortest form', r.len == z3.If(want <= 127, 1, z3.If(want <= 2047, 2, z3.If(want <= 65535, 3, 4))))]
+        return f
+    nopanic = lambda ex, st, P: z3.BoolVal(False)
+    C.append(SpecCase('SB', 'func SB(b byte) string { return string(b) }', [('b', 'byte')], nopanic, None, enc_ok(lambda P: P['b'])))
+    C.append(SpecCase('SR', 'func SR(r rune) string { return string(r) }', [('r', 'rune32')], nopanic, None, enc_ok(lambda P: P['r'])))
+    C.append(SpecCase('SI', 'func SI(i int) string { return string(rune(i)) }', [('i', 'int32')], nopanic, None, enc_ok(lambda P: P['i'])))
+    C.append(SpecCase('SU16', 'func SU16(u uint16) string { return string(rune(u)) }', [('u', 'nat')], nopanic, None, enc_ok(lambda P: P['u']), pre=lambda ex, st, P: P['u'] <= 65535))
+    return C
+
+def gospec_env(ex, st, binds):
+    from .gospec import SpecEnv
+    b = {}
+    for k, v in binds.items():
+        b[k] = ex.to_spec(st, v) if not isinstance(v, z3.ExprRef) else v
+    return SpecEnv(st, b, st.entry)
+
+RANGE_CASES = [
+    ('RangeCount', 'func RangeCount(s string) int { n := 0; for range s { n++ }; return n }', None, None),
+    ('RangeIdx', 'func RangeIdx(s string) int { a := 0; for i := range s { a += i }; return a }', 'i', None),
+    ('RangeSum', 'func RangeSum(s string) (int, int) { a, b := 0, 0; for i, r := range s { a += i; b += int(r) }; return a, b }', 'i', 'r'),
+    ('RangeVal', 'func RangeVal(s string) int { b := 0; for _, r := range s { b += int(r) }; return b }', None, 'r'),
+]
+
+def _verify_range_case(self, name, fn, ivar, rvar):
+    """one-iteration obligation for the loop emitted for `for i, r := range s`"""
+    from .jsexec import JSTuple
+    reset_fresh()
+    self.known_ranges = {}; self.u32view = {}; self.dmcache = {}; self.tzinfo = {}; self._keep = []
+    self.mode = 'jn'
+    fr = Frame('pattern ' + name, fn, None)
+    fr.loops = {}; fr.loop_specs = {}
+    self.frame = fr
+    self.loop_cache = {}
+    st = State()
+    s = self.make_param(st, 's', 'str')
+    st.env['s'] = s
+    entry = st.clone(); st.entry = entry; entry.entry = entry
+    stmts = fn['body']['body']
+    loop = None
+    for k, x in enumerate(stmts):
+        if x['type'] == 'WhileStatement':
+            loop = x; break
+        self.stmt(st, x)
+    if loop is None:
+        raise Unsupported('no loop in the emitted range function')
+    # arbitrary iteration: the position is any value in [0, len), every other loop-carried variable is arbitrary
+    mod, heapw = set(), []
+    self.assigned_js(loop['body'], mod, heapw)
+    for nme in mod:
+        if nme in st.env and nme != '_ref':
+            st.env[nme] = self.js_havoc(st, st.env[nme], nme) if not isinstance(st.env[nme], type(self.ev(st, {'type': 'Identifier', 'name': 'undefined', 'loc': loop['loc']}))) else fresh('lv.' + nme)
+    for nme in mod:
+        v = st.env.get(nme)
+        if isinstance(v, z3.ExprRef) and v.sort() == I:       # loop-carried Go variables of kind int / rune: 32-bit values
+            st.pc.append(z3.And(v >= -TWO31, v < TWO31)); self.know(v, -TWO31, TWO31 - 1)
+    pos = fresh('pos')
+    st.pc.append(z3.And(pos >= 0, pos < s.len))
+    st.env['_i'] = pos
+    env0 = gospec_env(self, st, {'s': s, 'p': pos})
+    wantR = self.sev(env0, speclang.parse_expr('decR(s, p)'))
+    wantW = self.sev(env0, speclang.parse_expr('decW(s, p)'))
+    def run(state):
+        self.stmt(state, loop['body'])
+        return None
+    n = 0
+    for (how, state, info) in self.run_paths(st, run):
+        self.trace = ['exit', n]; n += 1
+        if how == 'end':
+            self.oblige(state, 'advances by the width of the rune', state.env['_i'] == pos + wantW)
+            if ivar: self.oblige(state, 'index variable', state.env[ivar] == pos)
+            if rvar: self.oblige(state, 'rune variable', state.env[rvar] == wantR)
+        elif how == 'break':
+            self.oblige(state, 'no early exit inside the string', z3.BoolVal(False))
+        else:
+            self.oblige(state, 'no %s inside the loop body' % how, z3.BoolVal(False))
+    self.trace = []
+PatternExec.verify_range_case = _verify_range_case
+
+def run_c14(rep, spec, verbose=False, only=None):
+    cases = c14_cases()
+    rcases = RANGE_CASES
+    if only:
+        cases = [c for c in cases if only in c.name]; rcases = [c for c in rcases if only in c[0]]
+    gosrc = 'package main\n\nfunc main() {}\n\n' + '\n'.join([c.gosrc for c in cases] + [c[1] for c in rcases]) + '\n'
+    with tempfile.TemporaryDirectory(prefix='gvc-pat-') as td:
+        keep = os.path.join(td, 'pkg.js')
+        out, err = e2e.run(gosrc, 'console.log("compiled")', keep=keep)
+        if out is None or not os.path.exists(keep):
+            rep.undecided.append(('C14 pattern cases', 'the real compiler did not produce output: %s' % (err or '')[-400:]))
+            return []
+        files = [os.path.join(props_repo(), 'compiler', 'prelude', f) for f in ('prelude.js', 'numeric.js', 'types.js', 'goroutines.js', 'jsmapping.js')] + [keep]
+        dump = run_jsdump(files)
+    emitted = find_emitted(dump['pkg.js']['program'], {c.name for c in cases} | {c[0] for c in rcases})
+    ex = PatternExec(dump, spec)
+    ex.load_axioms()
+    for c in cases:
+        fn = emitted.get(c.name)
+        before = len(ex.obls)
+        try:
+            if fn is None: raise Unsupported('function not found in the emitted package')
+            ex.verify_spec_case(c, fn)
+            rep.functions.append('emitted ' + c.name)
+        except (Unsupported, KeyError, RecursionError, AttributeError) as e:
+            del ex.obls[before:]
+            rep.undecided.append(('pattern ' + c.name, '%s: %s' % (type(e).__name__, e)))
+    for (name, src_, ivar, rvar) in rcases:
+        fn = emitted.get(name)
+        before = len(ex.obls)
+        try:
+            if fn is None: raise Unsupported('function not found in the emitted package')
+            ex.verify_range_case(name, fn, ivar, rvar)
+            rep.functions.append('emitted ' + name)
+        except (Unsupported, KeyError, RecursionError, AttributeError) as e:
+            del ex.obls[before:]
+            rep.undecided.append(('pattern ' + name, '%s: %s' % (type(e).__name__, e)))
+    rep.assumed |= ex.assumed
+    return ex.obls
+
+from . import speclang
